@@ -62,7 +62,13 @@ def synthetic(seed, n_app, n_ret, noise=2e-11, spikes=0, mk="hertz_para"):
     cols, k = c07.synthetic(mk, seed, n_app=n_app, n_ret=n_ret, noise=noise)
     rng = np.random.default_rng(seed + 999)
     f = cols["force"]
-    for _ in range(spikes):
+    if spikes < 0:
+        # a few isolated one-sample spikes deep in the indentation part: the
+        # spike-count criterion fails (feature value 0)
+        for j, i in enumerate(np.linspace(0.78 * n_app, 0.975 * n_app,
+                                          -spikes).astype(int)):
+            f[i] += 4e-10 * (-1) ** j
+    for _ in range(max(spikes, 0)):
         i = int(rng.integers(n_app // 2, n_app - 2))
         f[i:i + 2] += 5e-10 * rng.choice([-1, 1])
     cols["height (measured)"] = cols["height (measured)"]
@@ -85,7 +91,8 @@ def catalogue(tier):
              (2, 320, 640, 5e-11, 3, "hertz_cone"),
              (3, 90, 40, 1e-11, 0, "hertz_para"),
              (4, 650, 300, 0.0, 0, "sneddon_spher_approx"),
-             (5, 400, 100, 1e-10, 6, "hertz_pyr3s")]
+             (5, 400, 100, 1e-10, 6, "hertz_pyr3s"),
+             (10, 1600, 200, 2e-11, -5, "hertz_para")]
     if tier != "quick":
         specs += [(6, 1500, 700, 3e-11, 2, "power_layer_clifford_2009"),
                   (7, 30, 20, 1e-11, 0, "hertz_para"),
@@ -240,7 +247,8 @@ def oracle(run, name, idnt, fit_state):
                         payload={"kind": "order", "which": which},
                         theorem="C17_order")
     # force unit
-    for c, tol in [(2.0 ** 10, 0.0), (2.0 ** -7, 0.0), (3.7, 1e-9)]:
+    for c, tol in [(2.0 ** 10, 0.0), (2.0 ** -7, 0.0), (3.7, 1e-9),
+                   (2.0 ** 30, 0.0), (1e6, 1e-9), (2.0 ** -20, 0.0)]:
         try:
             w = feats(twin(idnt, scale=c))
         except BaseException as e:
